@@ -20,7 +20,8 @@ func loopHeader(in ssa.Instruction) *ssa.BasicBlock {
 		// h is a loop header for b if some predecessor of h is reachable from b
 		isHeader := false
 		for _, p := range h.Preds {
-			if eng.BlockReaches(b, p) && (p == h || h.Dominates(p)) {
+			// natural loop of the back edge p→h: blocks that reach p without passing through h
+			if (p == h || h.Dominates(p)) && (b == h || reachesAvoiding(b, p, h)) {
 				isHeader = true
 			}
 		}
@@ -94,4 +95,47 @@ func chanOps(funcs []*ssa.Function, pred func(eng.FieldRef) bool) []chanOp {
 		})
 	}
 	return out
+}
+
+// reachesAvoiding reports whether a reaches b on a path that does not pass through avoid.
+func reachesAvoiding(a, b, avoid *ssa.BasicBlock) bool {
+	if a == avoid {
+		return false
+	}
+	if a == b {
+		return true
+	}
+	seen := map[*ssa.BasicBlock]bool{a: true}
+	work := []*ssa.BasicBlock{a}
+	for len(work) > 0 {
+		x := work[len(work)-1]
+		work = work[:len(work)-1]
+		for _, s := range x.Succs {
+			if s == avoid || seen[s] {
+				continue
+			}
+			if s == b {
+				return true
+			}
+			seen[s] = true
+			work = append(work, s)
+		}
+	}
+	return false
+}
+
+// inNaturalLoop reports whether block b belongs to the natural loop headed by h.
+func inNaturalLoop(b, h *ssa.BasicBlock) bool {
+	if b == h {
+		return true
+	}
+	if !h.Dominates(b) {
+		return false
+	}
+	for _, p := range h.Preds {
+		if (p == h || h.Dominates(p)) && reachesAvoiding(b, p, h) {
+			return true
+		}
+	}
+	return false
 }
